@@ -154,6 +154,9 @@ func Load(dir string, allSyntax bool) *World {
 		w.repoFuncs = keep
 	}
 	currentWorld = w
+	if os.Getenv("SHOVELCHECK_NOLIFT") == "" {
+		liftReadOnlyCaptures(w.repoFuncs)
+	}
 	sort.Slice(w.repoFuncs, func(i, j int) bool {
 		a, b := w.repoFuncs[i], w.repoFuncs[j]
 		if a.Pos() != b.Pos() {
